@@ -11,7 +11,9 @@ EXTENDS Emit
 
 (* sizes beyond the small grid: loops unrolled or special-cased for a size show only here *)
 Big == {<<5>>, <<7>>, <<4, 5>>, <<5, 1>>, <<1, 6>>, <<2, 4, 3>>, <<4, 1, 2, 5>>}
-Grid == (IF Thorough THEN Shapes(4, 3) \cup Shapes(6, 2)
+(* thresholds: work is sometimes split or blocked once a dimension or an element count passes 8, 16, 64, 512 *)
+Large == {<<17>>, <<18, 2>>, <<2, 19>>, <<33>>, <<9, 2>>, <<3, 11>>}
+Grid == Large \cup {<<13>>, <<2, 9, 2>>, <<19, 1>>} \cup (IF Thorough THEN Shapes(4, 3) \cup Shapes(6, 2)
          ELSE Shapes(3, 2) \cup Shapes(2, 3) \cup {<<1, 3, 1, 2>>, <<2, 1, 1, 2, 3>>, <<2, 1, 2, 1, 1, 2>>}) \cup Big
 GridSeq == SetToSeq(Grid)
 WholeOps == <<"sum", "max", "min", "avg", "mean", "var", "std">>
